@@ -623,7 +623,7 @@ class SampleImage(BaseAnalytical):
             # Radial polynomial parameters for one peak.
             if self.name == 'O2':
                 def peak(A, r0, width):
-                    width *= 2
+                    width = 2 * width  # (not in place: can be an array)
                     c = [A, 0, -3 * A, 2 * A]
                     return [(r0 - width, r0, c, r0, -width),
                             (r0, r0 + width, c, r0, width)]
